@@ -25,7 +25,7 @@ def run(facts, tier):
         ("release guards", lambda fa: generic_lints.conditional_release_before_overwrite(fa, ('hll/',)), 1, "an owning pointer field that is overwritten had its old object released unconditionally or under the existence test of that very object (any other guard leaks it on the other paths)"),
         ("invalidated pointers", lambda fa: generic_lints.invalidated_pointers(fa, ('hll/',)), 1, "no pointer / iterator obtained from begin() / end() / data() of an object is used after a call on that object that can move its storage (ensure_space, grow, resize ...)"),
         ("forwarding peers", lambda fa: generic_lints.forwarding_peers(fa, ('hll/',)), 2, "one-statement typed overloads forward to an overload of their own name, never to the head of a sibling family (wrong peer)"),
-        ("structural triggers", lambda fa: triggers.obligations(fa, ['AuxHashMap', 'CouponHashSet', 'CouponList', 'Hll4Array']), 7, "the comparisons that decide when to resize / rebuild / compact / purge / promote keep their reviewed boundary (operator and constants)"),
+        ("structural triggers", lambda fa: triggers.obligations(fa, ['AuxHashMap', 'CouponHashSet', 'CouponList', 'Hll4Array']), 8, "the comparisons that decide when to resize / rebuild / compact / purge / promote keep their reviewed boundary (operator and constants)"),
     ):
         o = f(facts)
         obs += o
